@@ -61,6 +61,8 @@ type World struct {
 	consts      map[string]Expr
 	prog        *Program
 	scratch     map[string]bool
+	constArrs   map[string][3]string
+	constArrOrd []string
 }
 
 type structSort struct {
@@ -251,15 +253,14 @@ func (w *World) zeroSort(s Sort) string {
 		return "0.0"
 	case strings.HasPrefix(s, "(Slc "):
 		e := s[5 : len(s)-1]
-		return "((as mk_slc (Slc " + e + ")) ((as const (Array Int " + e + ")) " + w.zeroSort(e) + ") 0)"
+		return "((as mk_slc (Slc " + e + ")) " + w.constArr("Int", e) + " 0)"
 	case strings.HasPrefix(s, "(Array Int "):
 		e := s[len("(Array Int ") : len(s)-1]
-		return "((as const " + s + ") " + w.zeroSort(e) + ")"
+		return w.constArr("Int", e)
 	case strings.HasPrefix(s, "(Array "):
 		// (Array K V) -- ghost maps/sets
 		k, v := splitArraySort(s)
-		_ = k
-		return "((as const " + s + ") " + w.zeroSort(v) + ")"
+		return w.constArr(k, v)
 	case strings.HasPrefix(s, "S_"):
 		ss := w.structSorts[s]
 		if len(ss.Fields) == 0 {
@@ -402,6 +403,10 @@ func (w *World) prelude(usedLits map[string]bool) string {
 		}
 		b.WriteString("))\n")
 	}
+	for _, n := range w.constArrOrd {
+		ca := w.constArrs[n]
+		fmt.Fprintf(&b, "(declare-const %s (Array %s %s))\n(assert (forall ((i %s)) (! (= (select %s i) %s) :pattern ((select %s i)))))\n", n, ca[0], ca[1], ca[0], n, ca[2], n)
+	}
 	// spec functions
 	for _, n := range w.specFunOrd {
 		f := w.specFuns[n]
@@ -412,4 +417,26 @@ func (w *World) prelude(usedLits map[string]bool) string {
 		fmt.Fprintf(&b, "(declare-fun %s (%s) %s)\n", f.SMTName, strings.Join(f.ParamSorts, " "), f.Ret)
 	}
 	return b.String()
+}
+
+// constArr: the array mapping every index to the zero value of vs. Solvers differ on `as const`
+// with a non-literal default (cvc5 wants a value), so for those sorts an uninterpreted array
+// constant with a defining axiom is used instead.
+func (w *World) constArr(ks, vs Sort) string {
+	z := w.zeroSort(vs)
+	if z == "0" || z == "false" || z == "0.0" || z == "ref_nil" {
+		if z == "ref_nil" {
+			z = "0"
+		}
+		return "((as const (Array " + ks + " " + vs + ")) " + z + ")"
+	}
+	n := "carr_" + sanitize(ks) + "_" + sanitize(vs)
+	if w.constArrs == nil {
+		w.constArrs = map[string][3]string{}
+	}
+	if _, ok := w.constArrs[n]; !ok {
+		w.constArrs[n] = [3]string{ks, vs, z}
+		w.constArrOrd = append(w.constArrOrd, n)
+	}
+	return n
 }
